@@ -19,6 +19,7 @@ DEFAULT_OPTS = {
   "reset": True,
   "uu": False,               # explicit U(a) < U(b) between independent blocks
   "min_comb": 1,
+  "ff_heavy": False,         # C07: many registers, one ff block per register, ff blocks read each other's registers
 }
 
 
@@ -49,6 +50,7 @@ class ClassBuilder:
     self.ports, self.wires, self.children, self.conns, self.blocks, self.uu = [], [], [], [], [], []
     self.avail = []            # [(ref-without-slice, type)] readable sources (whole signals / child outs)
     self.n = 0
+    self.regs = []
     self.comb_out = False      # some out port depends combinationally on an in port
     self.tmpn = 0
     self.block_reads = {}      # block name -> set of signal names (for independent-block uu constraints)
@@ -80,6 +82,19 @@ class ClassBuilder:
     srcs = self.bits_sources()
     tmps = [(n, tw) for n, tw in env.get("tmps", [])]
     k = d(st.integers(0, 9))
+    if env.get("ff") and self.opts["ff_heavy"] and getattr(self, "regs", None) and k >= 4:
+      regsrc = [(r, t[1]) for r, t in self.regs if t[0] == "b"]
+      for r, t in self.regs:
+        if t[0] == "s":
+          for fld, lt in leaves_of_type(t):
+            rr = dict(r); rr["fld"] = fld; regsrc.append((rr, lt[1]))
+      if regsrc:
+        ref, sw = d(st.sampled_from(regsrc))
+        if sw == w: return ["sig", ref]
+        if sw > w:
+          lo = d(st.integers(0, sw - w)); r = dict(ref); r["sl"] = [lo, lo + w]
+          return ["sig", r]
+        return ["zext", ["sig", ref], w]
     if k == 0 or not (srcs or tmps):
       from vf.strategies import uvalue
       return ["const", w, d(uvalue(w))]
@@ -222,7 +237,7 @@ class ClassBuilder:
 
   def ff_block(self, regs, name):
     d = self.draw
-    env = {"tmps": [], "lv": [], "maxd": 2}
+    env = {"tmps": [], "lv": [], "maxd": 2, "ff": True}
     stmts = []
 
     def asg(r, t):
@@ -382,7 +397,7 @@ class ClassBuilder:
     # registers (available from the start)
     regs = []
     if o["ff"]:
-      for _ in range(d(st.integers(0, 3))):
+      for _ in range(d(st.integers(2, 5)) if o["ff_heavy"] else d(st.integers(0, 3))):
         t = self.any_type()
         n = self.new_signal(t)
         regs.append((mkref(n), t)); self.avail.append((mkref(n), t))
@@ -391,8 +406,10 @@ class ClassBuilder:
       if d(st.integers(0, 3)) == 0: self.step_child()
       else: self.step_signals()
     # ff blocks, created last so they may read everything
+    self.regs = regs
     if regs:
       k = d(st.integers(1, min(3, len(regs))))
+      if o["ff_heavy"] and d(st.integers(0, 3)) > 0: k = min(4, len(regs))
       groups = [regs[i::k] for i in range(k)]
       for g in groups:
         self.blocks.append(self.ff_block(g, self.fresh("ff")))
